@@ -75,6 +75,22 @@ int str_table_copy(str_table_t *dst, const str_table_t *src)
 	hash_table_foreach(dst->ht, ent) {
 		bucket = alloc_flex(sizeof(*bucket), 1, strlen(ent->key) + 1);
 		if (bucket == NULL) {
+			/*
+			  Entries that have not been duplicated yet still
+			  point to the buckets owned by the source table.
+			 */
+			hash_table_foreach(dst->ht, it) {
+				const str_bucket_t *b = it->data;
+				const str_bucket_t *const *orig =
+					(const str_bucket_t *const *)
+					src->bucket_ptrs.data;
+
+				if (orig[b->index] == b) {
+					it->data = NULL;
+					it->key = NULL;
+				}
+			}
+
 			str_table_cleanup(dst);
 			return SQFS_ERROR_ALLOC;
 		}
